@@ -34,6 +34,9 @@ def run(run):
         c03.receivers_die_with_actor(run, f, lc)   # O12.3
         sp = sendpaths.get(f)
         c03.asker_never_hangs(run, f, sp)
+        # "its pending and future senders get errors" - error values, not panics of their own
+        from rules import sendrules
+        sendrules.delivery_never_panics(run, f, "O12.7")
         statics_inventory(run, f)
         if "deadlock-detection" in f.features:
             lock_discipline(run, f)
